@@ -7,6 +7,91 @@ Open Scope Z_scope.
 Ltac fin := cbn [bind negb]; auto with c03.
 
 (* ------------------------------------------------------------------------------------------------------------ *)
+(* the symbolic residual of an expression that can be evaluated is closed *)
+Definition allconst (p : poly) : Prop := forallb (fun t => is_nil (fst t)) p = true.
+
+Lemma padd1_const : forall c p, allconst p -> allconst (padd1 [] c p).
+Proof.
+  unfold allconst. induction p as [|[m' c'] r IH]; cbn; auto. intros H.
+  destruct m' as [|x m']; cbn in H; [|discriminate]. cbn. exact H.
+Qed.
+Lemma padd_const : forall p q, allconst p -> allconst q -> allconst (padd p q).
+Proof.
+  unfold padd. induction p as [|[m c] r IH]; cbn; auto. intros q H Hq. unfold allconst in H. cbn in H.
+  apply andb_prop in H as [H1 H2]. destruct m; [|discriminate]. apply padd1_const. apply IH; auto.
+Qed.
+Lemma pscale_const : forall c p, allconst p -> allconst (pscale [] c p).
+Proof.
+  unfold allconst, pscale. induction p as [|[m c'] r IH]; cbn; auto. intros H.
+  destruct m as [|x m]; cbn in H; [|discriminate]. cbn. auto.
+Qed.
+Lemma pmul_const : forall p q, allconst p -> allconst q -> allconst (pmul p q).
+Proof.
+  unfold pmul. induction p as [|[m c] r IH]; cbn; auto. intros q H Hq. unfold allconst in H. cbn in H.
+  apply andb_prop in H as [H1 H2]. destruct m; [|discriminate]. apply padd_const; [apply pscale_const; auto|apply IH; auto].
+Qed.
+Lemma pneg_const : forall p, allconst p -> allconst (pneg p).
+Proof.
+  unfold allconst, pneg. induction p as [|[m c] r IH]; cbn; auto. intros H.
+  destruct m as [|x m]; cbn in H; [|discriminate]. cbn. auto.
+Qed.
+Lemma peval_const : forall rho e q, eval rho e = Some q -> allconst (peval rho e).
+Proof.
+  induction e; cbn; intros q0 H.
+  - reflexivity.
+  - rewrite H. reflexivity.
+  - destruct (eval rho e1) eqn:E1; [|discriminate]. destruct (eval rho e2) eqn:E2; [|discriminate].
+    apply padd_const; eauto.
+  - destruct (eval rho e1) eqn:E1; [|discriminate]. destruct (eval rho e2) eqn:E2; [|discriminate].
+    apply padd_const; [|apply pneg_const]; eauto.
+  - destruct (eval rho e1) eqn:E1; [|discriminate]. destruct (eval rho e2) eqn:E2; [|discriminate].
+    apply pmul_const; eauto.
+Qed.
+Lemma eval_closed : forall rho e q, eval rho e = Some q -> res_closed rho e = true.
+Proof.
+  intros rho e q H. apply peval_const in H. unfold res_closed, allconst in *.
+  rewrite forallb_forall in *. intros t Ht. rewrite (H t Ht). reflexivity.
+Qed.
+
+(* ------------------------------------------------------------------------------------------------------------ *)
+(* D = "the deviation is allowed": a function expression with a missing name whose residual is closed *)
+Definition fdev (D : Prop) (l : list ob) : Prop := forall e r, In (OF e r) l -> vanishes r e = true -> D.
+
+Lemma fdev_app : forall D a b, fdev D (a ++ b) -> fdev D a /\ fdev D b.
+Proof. intros D a b H. split; intros e r Hin; apply H; apply in_or_app; auto. Qed.
+Lemma fdev_cons : forall D o l, fdev D (o :: l) -> fdev D l.
+Proof. intros D o l H e r Hin. apply H. right; auto. Qed.
+Lemma fdev_flat_map : forall D X (f : X -> list ob) l, fdev D (flat_map f l) -> forall x, In x l -> fdev D (f x).
+Proof. intros D X f l H x Hx e r Hin. apply H. apply in_flat_map. exists x; auto. Qed.
+Lemma fdev_abs : forall D l1 l2, map ob_abs l1 = map ob_abs l2 -> fdev D l1 -> fdev D l2.
+Proof.
+  intros D l1 l2 H H1 e r Hin Hv. apply (in_map ob_abs) in Hin. rewrite <- H in Hin.
+  apply in_map_iff in Hin as [o [Ho Hin]]. destruct o; cbn in Ho; try discriminate.
+  inversion Ho as [[He Hev Hc]]. subst e0. apply (H1 e rho Hin). unfold vanishes in *. rewrite Hev, Hc. exact Hv.
+Qed.
+Lemma fdev_False : forall p rho drop, guard_C03_function_zero p rho drop = true -> fdev False (obs p rho drop).
+Proof.
+  intros p rho drop H e r Hin Hv. unfold guard_C03_function_zero in H. rewrite forallb_forall in H.
+  specialize (H _ Hin). cbn in H. rewrite Hv in H. discriminate.
+Qed.
+Lemma fdev_True : forall l, fdev True l.
+Proof. intros l e r _ _. exact Logic.I. Qed.
+
+Lemma refines_ok_inv0 : forall A (x : A) b, refinesD False (Ok x) b -> b = Ok x.
+Proof. intros A x b [H|[H|[_ [H|[]]]]]; try discriminate; auto. Qed.
+
+(* constraint validation never deviates *)
+Lemma validate_ok : forall s cs, validate s cs = Ok tt -> first_fail (map ob_stat (obs_c (lookup s) cs)) = None.
+Proof.
+  intros s cs H. pose proof (validate_ref False s cs) as Hv. rewrite H in Hv. apply refines_ok_inv0 in Hv.
+  unfold verd in Hv. destruct (first_fail (map ob_stat (obs_c (lookup s) cs))); [discriminate|auto].
+Qed.
+
+Section Ref.
+Variable D : Prop.
+Local Notation refines := (refinesD D).
+
+(* ------------------------------------------------------------------------------------------------------------ *)
 (* eager mapping (MappingPT inside an atomic parent) *)
 Lemma eval_mapping_err : forall s m e, eval_mapping s m = Err e -> e = Missing.
 Proof.
@@ -32,8 +117,8 @@ Proof.
   destruct (assoc x m) eqn:E; auto. exfalso. eapply assoc_in_keys; eauto.
 Qed.
 
-Lemma refines_ok_inv : forall A (x : A) b, refines (Ok x) b -> b = Ok x.
-Proof. intros A x b [H|[H|[_ H]]]; try discriminate; auto. Qed.
+Lemma refines_ok_invD : forall A (x : A) b, refines (Ok x) b -> b = Ok x \/ (b = Err Missing /\ D).
+Proof. intros A x b [H|[H|[Hb [H|H]]]]; try discriminate; auto. Qed.
 
 Lemma eager_ref : forall B s m cs (f : scope -> result B) K,
   (forall l, eval_mapping s m = Ok l -> validate s cs = Ok tt -> refines (f (SDict l)) K) ->
@@ -42,10 +127,9 @@ Proof.
   intros B s m cs f K H. unfold eager.
   destruct (keys_ok s); fin.
   destruct (subset _ (skeys s)); fin.
-  pose proof (validate_ref s cs) as Hv.
+  pose proof (validate_ref D s cs) as Hv.
   destruct (validate s cs) as [[]|e] eqn:Ev.
-  - apply refines_ok_inv in Hv. unfold verd in *.
-    destruct (first_fail (map ob_stat (obs_c (lookup s) cs))); [discriminate|].
+  - unfold verd in *. rewrite (validate_ok _ _ Ev).
     cbn [bind]. destruct (eval_mapping s m) as [l|e] eqn:Em.
     + cbn [bind]. auto.
     + apply eval_mapping_err in Em. subst. fin.
@@ -79,11 +163,41 @@ Proof.
   destruct (eval (lookup s) e); cbn; auto.
 Qed.
 
-Lemma build_atom_ref : forall k reads dur cs s drop,
-  refines (build_atom k reads dur cs s drop)
-          (verd (obs_build (Atom k reads dur cs []) (lookup s) drop) (Ok (atom_wave k dur (lookup s) drop))).
+Lemma is_pos_ref : forall B s e (f : bool -> result B) (K : result B),
+  (eval (lookup s) e <> None -> refines (f (positive (lookup s) e)) K) ->
+  refines (bind (is_pos s e) f) (verd [OR e (lookup s)] K).
 Proof.
-  intros. unfold build_atom. cbn [obs_build]. rewrite verd_app.
+  intros B s e f K H. unfold is_pos, verd, positive in *. cbn [map first_fail ob_stat].
+  destruct (eval (lookup s) e) as [q|]; cbn; auto with c03. apply H. discriminate.
+Qed.
+
+Lemma scalar_ref : forall s es, refines (scalar s es) (verd (obs_r (lookup s) es) (Ok tt)).
+Proof.
+  intros s es. unfold scalar. destruct es as [|e r]; [apply refines_refl|].
+  destruct (forced_ok s); fin. apply eval_all_ref.
+Qed.
+
+(* the expression of a function atom: the only place where the code deviates *)
+Lemma func_reads_ref : forall rho reads, fdev D (obs_f rho reads) ->
+  refines (if forallb (res_closed rho) reads then Ok true else Err Other) (verd (obs_f rho reads) (Ok true)).
+Proof.
+  induction reads as [|e r IH]; intros HD; cbn [forallb obs_f map]; [apply refines_refl|].
+  fold (obs_f rho r). rewrite verd_cons. unfold verd at 1. cbn [map first_fail ob_stat].
+  destruct (eval rho e) as [q|] eqn:E.
+  - rewrite (eval_closed _ _ _ E). cbn [andb]. apply IH. eapply fdev_cons; eauto.
+  - destruct (res_closed rho e) eqn:Ec; cbn [andb].
+    + right; right. split; auto. right. apply (HD e rho); [left; auto|]. unfold vanishes. rewrite Ec, E. reflexivity.
+    + right; right. auto.
+Qed.
+
+Lemma build_atom_ref : forall k chs reads dur cs s drop,
+  fdev D (obs_build (Atom k chs reads dur cs []) (lookup s) drop) ->
+  refines (build_atom k chs reads dur cs s drop)
+          (verd (obs_build (Atom k chs reads dur cs []) (lookup s) drop)
+                (Ok (atom_wave k dur (lookup s) (adrop chs drop)))).
+Proof.
+  intros k chs reads dur cs s drop HD. unfold build_atom. cbn [obs_build] in *. rewrite verd_app.
+  apply fdev_app in HD as [_ HD].
   eapply bind_ref; [apply validate_ref|].
   destruct k.
   - (* table *)
@@ -92,18 +206,21 @@ Proof.
     apply is_zero_ref. intros _. cbv beta. unfold atom_wave. rewrite negb_involutive.
     rewrite andb_comm. apply refines_refl.
   - (* point *)
-    unfold atom_wave. destruct drop; cbn [negb andb]; [apply refines_refl|].
+    unfold atom_wave. destruct (adrop chs drop); cbn [negb andb]; [apply refines_refl|].
     rewrite verd_cons. apply is_zero_ref. intros _. cbv beta.
     destruct (nonzero (lookup s) dur); cbn [negb].
     + eapply bind_ref; [apply eval_all_ref|apply refines_refl].
     + apply refines_refl.
   - (* function *)
-    unfold atom_wave. destruct drop; cbn [negb]; [apply refines_refl|].
+    unfold atom_wave. destruct (adrop chs drop); cbn [negb]; [apply refines_refl|].
     destruct (forced_ok s); fin.
     rewrite verd_cons. apply is_zero_ref. intros _.
-    destruct (eval_all_exact s reads) as [[H1 H2]|[H1 H2]]; rewrite H1; unfold verd; rewrite H2.
-    + apply refines_refl.
-    + right; right; auto.
+    apply func_reads_ref. eapply fdev_cons; eauto.
+  - (* constant *)
+    unfold atom_wave. rewrite verd_cons. apply is_pos_ref. intros _.
+    destruct (positive (lookup s) dur).
+    + rewrite andb_true_r. eapply bind_ref; [apply eval_all_ref|apply refines_refl].
+    + rewrite andb_false_r. apply refines_refl.
 Qed.
 
 (* ------------------------------------------------------------------------------------------------------------ *)
@@ -138,25 +255,34 @@ Qed.
 (* ------------------------------------------------------------------------------------------------------------ *)
 (* build_waveform / get_measurement_windows of atomic nodes *)
 Definition build_ok (p : pt) : Prop :=
-  wf p -> atomic p = true -> forall s drop,
+  wf p -> atomic p = true -> forall s drop, fdev D (obs_build p (lookup s) drop) ->
     refines (build p s drop) (verd (obs_build p (lookup s) drop) (Ok (wave p (lookup s) drop))).
 
 Lemma build_ref : forall p, build_ok p.
 Proof.
-  induction p using pt_ind'; unfold build_ok; intros Hwf Hat s drop; cbn [atomic] in Hat; try discriminate.
-  - exact (build_atom_ref k reads dur cs s drop).
-  - cbn [build obs_build wave]. rewrite verd_app. eapply bind_ref; [apply validate_ref|].
+  induction p using pt_ind'; unfold build_ok; intros Hwf Hat s drop HD; cbn [atomic] in Hat; try discriminate.
+  - exact (build_atom_ref k chs reads dur cs s drop HD).
+  - cbn [build obs_build wave] in *. rewrite verd_app. eapply bind_ref; [apply validate_ref|].
+    apply fdev_app in HD as [_ HD].
     cbn [wf] in Hwf. destruct Hwf as [_ Hwf]. apply wf_subs in Hwf.
     apply fold_or_ref with (f := fun q => build q s drop) (obsf := fun q => obs_build q (lookup s) drop)
                            (wv := fun q => wave q (lookup s) drop).
     intros q Hq. rewrite Forall_forall in H, Hwf. apply H; auto.
-    rewrite forallb_forall in Hat. auto.
-  - cbn [build obs_build wave]. cbn [wf] in Hwf. destruct Hwf as [Hsub Hwf].
-    rewrite verd_app. apply eager_ref. intros l Hl Hv.
-    specialize (IHp Hwf Hat (SDict l) drop).
-    destruct (atomic_coincidence p Hwf (lookup (SDict l)) (map_env (lookup s) m) drop) as [C1 [C2 C3]].
+    + rewrite forallb_forall in Hat. auto.
+    + eapply fdev_flat_map in HD; eauto.
+  - (* Ari *)
+    cbn [build obs_build wave] in *. cbn [wf] in Hwf. rewrite verd_app. apply fdev_app in HD as [HD _].
+    eapply bind_ref'; [apply IHp; auto|]. intros _.
+    destruct (wave p (lookup s) drop); [|apply refines_refl].
+    eapply bind_ref; [apply scalar_ref|apply refines_refl].
+  - cbn [build obs_build wave] in *. cbn [wf] in Hwf. destruct Hwf as [Hsub Hwf].
+    rewrite verd_app. apply fdev_app in HD as [_ HD]. apply eager_ref. intros l Hl Hv.
+    destruct (atomic_coincidence_a p Hwf (lookup (SDict l)) (map_env (lookup s) m) drop) as [C1 [C2 C3]].
     { eapply eager_agree; eauto. apply subset_in; auto. }
-    rewrite <- (verd_stat_eq _ _ _ _ C1), <- C2. exact IHp.
+    assert (HD' : fdev D (obs_build p (lookup (SDict l)) drop)) by (eapply fdev_abs; [symmetry; exact C1|exact HD]).
+    specialize (IHp Hwf Hat (SDict l) drop HD').
+    rewrite <- (verd_stat_eq _ _ _ _ (eq_trans (map_stat_abs _) (eq_trans (f_equal (map astat) C1) (eq_sym (map_stat_abs _))))), <- C2.
+    exact IHp.
 Qed.
 
 Definition meas_at_ok (p : pt) : Prop :=
@@ -173,6 +299,9 @@ Proof.
     apply fold_unit_ref with (f := fun q => meas_at q s) (obsf := fun q => obs_meas q (lookup s)).
     intros q Hq. rewrite Forall_forall in H, Hwf. rewrite forallb_forall in Hat.
     destruct (fold_or_ok _ _ _ _ Hb q Hq) as [w' Hw']. eapply H; eauto.
+  - (* Ari *)
+    cbn [meas_at obs_meas]. cbn [wf] in Hwf. cbn [build] in Hb.
+    destruct (build p s drop) as [w'|] eqn:Eb; cbn [bind] in Hb; [|discriminate]. eapply IHp; eauto.
   - cbn [meas_at obs_meas]. cbn [wf] in Hwf. destruct Hwf as [Hsub Hwf].
     cbn [build] in Hb. destruct (eager s m cs) as [s'|] eqn:Ee; cbn [bind] in Hb; [|discriminate].
     destruct (eager_ok _ _ _ _ Ee) as [l [-> [Hl Hv]]]. cbn [bind].
@@ -183,20 +312,22 @@ Qed.
 
 (* ------------------------------------------------------------------------------------------------------------ *)
 (* _create_program *)
-Lemma run_atomic_ref : forall p s drop, wf p -> atomic p = true ->
+Lemma run_atomic_ref : forall p s drop, wf p -> atomic p = true -> fdev D (obs_build p (lookup s) drop) ->
   refines (bind (build p s drop) (fun w => if w then bind (meas_at p s) (fun _ => Ok true) else Ok false))
           (verd (obs_build p (lookup s) drop ++ (if wave p (lookup s) drop then obs_meas p (lookup s) else []))
                 (Ok (wave p (lookup s) drop))).
 Proof.
-  intros p s drop Hwf Hat. rewrite verd_app.
-  pose proof (build_ref p Hwf Hat s drop) as Hb.
+  intros p s drop Hwf Hat HD. rewrite verd_app.
+  pose proof (build_ref p Hwf Hat s drop HD) as Hb.
   destruct (build p s drop) as [w|e] eqn:Eb.
-  - apply refines_ok_inv in Hb. unfold verd at 1. unfold verd in Hb.
-    destruct (first_fail (map ob_stat (obs_build p (lookup s) drop))); [discriminate|].
-    inversion Hb as [Hw]. cbn [bind]. clear Hb.
-    destruct (wave p (lookup s) drop) eqn:Ew; subst w.
-    + eapply bind_ref; [eapply meas_at_ref; eauto|apply refines_refl].
-    + apply refines_refl.
+  - apply refines_ok_invD in Hb. unfold verd at 1. unfold verd in Hb.
+    destruct (first_fail (map ob_stat (obs_build p (lookup s) drop))).
+    + destruct Hb as [Hb|[Hb HD']]; [discriminate|]. right; right. auto.
+    + destruct Hb as [Hb|[Hb HD']]; [|discriminate].
+      inversion Hb as [Hw]. cbn [bind]. clear Hb.
+      destruct (wave p (lookup s) drop) eqn:Ew; subst w.
+      * eapply bind_ref; [eapply meas_at_ref; eauto|apply refines_refl].
+      * apply refines_refl.
   - cbn [bind].
     change (@Err bool e) with (bind (@Err bool e)
        (fun _ => verd (if wave p (lookup s) drop then obs_meas p (lookup s) else []) (Ok (wave p (lookup s) drop)))).
@@ -204,43 +335,62 @@ Proof.
 Qed.
 
 Definition run_ok (p : pt) : Prop :=
-  wf p -> forall s drop, refines (run p s drop) (verdict p (lookup s) drop).
+  wf p -> forall s drop, fdev D (obs p (lookup s) drop) -> refines (run p s drop) (verdict p (lookup s) drop).
 
-Lemma run_ref : forall p, run_ok p.
+Lemma run_ref_D : forall p, run_ok p.
 Proof.
-  induction p using pt_ind'; unfold run_ok, verdict; intros Hwf s drop.
-  - (* Atom *) apply run_atomic_ref; auto.
-  - (* AMC *) apply run_atomic_ref; auto. cbn [wf] in Hwf. cbn [atomic]. tauto.
+  induction p using pt_ind'; unfold run_ok, verdict; intros Hwf s drop HD.
+  - (* Atom *) apply run_atomic_ref; auto. cbn [obs] in HD. apply fdev_app in HD as [HD _]. auto.
+  - (* AMC *) apply run_atomic_ref; auto; [cbn [wf] in Hwf; cbn [atomic]; tauto|].
+    cbn [obs] in HD. apply fdev_app in HD as [HD _]. auto.
   - (* Par *)
-    cbn [run obs plays]. rewrite verd_app. cbn [wf] in Hwf.
-    destruct drop.
-    + cbn [bind]. rewrite verd_nil. apply IHp; auto.
-    + eapply bind_ref; [apply eval_all_ref|]. apply IHp; auto.
+    cbn [run obs plays] in *. rewrite verd_app. cbn [wf] in Hwf. apply fdev_app in HD as [_ HD].
+    eapply bind_ref; [apply eval_all_ref|]. apply IHp; auto.
+  - (* Ari *)
+    cbn [run obs plays] in *. rewrite verd_app. cbn [wf] in Hwf. apply fdev_app in HD as [_ HD].
+    eapply bind_ref; [apply scalar_ref|]. apply IHp; auto.
   - (* Seq *)
-    cbn [run obs plays]. rewrite !verd_app. eapply bind_ref; [apply validate_ref|].
+    cbn [run obs plays] in *. rewrite !verd_app. eapply bind_ref; [apply validate_ref|].
     eapply bind_ref; [apply meas_ref|].
+    apply fdev_app in HD as [_ HD]. apply fdev_app in HD as [_ HD].
     cbn [wf] in Hwf. apply wf_subs in Hwf. rewrite Forall_forall in H, Hwf.
     apply fold_or_ref with (f := fun q => run q s drop) (obsf := fun q => obs q (lookup s) drop)
                            (wv := fun q => plays q (lookup s) drop).
-    intros q Hq. apply H; auto.
+    intros q Hq. apply H; auto. eapply fdev_flat_map in HD; eauto.
   - (* Rep *)
-    cbn [run obs plays]. rewrite verd_app. eapply bind_ref; [apply validate_ref|]. cbn [wf] in Hwf.
-    rewrite verd_cons. apply eval_int_ref. intros n Hn. rewrite Hn.
+    cbn [run obs plays] in *. rewrite verd_app. eapply bind_ref; [apply validate_ref|]. cbn [wf] in Hwf.
+    apply fdev_app in HD as [_ HD]. apply fdev_cons in HD.
+    rewrite verd_cons. apply eval_int_ref. intros n Hn. rewrite Hn in *.
     destruct (0 <? n).
-    + rewrite verd_app. eapply bind_ref; [apply meas_ref|]. apply IHp; auto.
+    + rewrite verd_app. eapply bind_ref; [apply meas_ref|]. apply fdev_app in HD as [_ HD]. apply IHp; auto.
     + apply refines_refl.
   - (* For *)
-    cbn [run obs plays]. rewrite verd_app. eapply bind_ref; [apply validate_ref|]. cbn [wf] in Hwf.
+    cbn [run obs plays] in *. rewrite verd_app. eapply bind_ref; [apply validate_ref|]. cbn [wf] in Hwf.
+    apply fdev_app in HD as [_ HD]. do 3 apply fdev_cons in HD.
     rewrite verd_cons. apply eval_int_ref. intros a' Ha.
     rewrite verd_cons. apply eval_int_ref. intros b' Hb.
     rewrite verd_cons. apply eval_nz_ref. intros st' Hst Hnz.
-    unfold range_of. rewrite Ha, Hb, Hst. destruct (Z.eqb_spec st' 0); [contradiction|].
-    rewrite verd_app. eapply bind_ref; [apply meas_ref|].
+    unfold range_of in *. rewrite Ha, Hb, Hst in *. destruct (Z.eqb_spec st' 0); [contradiction|].
+    rewrite verd_app. eapply bind_ref; [apply meas_ref|]. apply fdev_app in HD as [_ HD].
     apply fold_or_ref with (f := fun v => run p (SRange s i v) drop)
                            (obsf := fun v => obs p (upd (lookup s) i (inject_Z v)) drop)
                            (wv := fun v => plays p (upd (lookup s) i (inject_Z v)) drop).
-    intros v _. apply (IHp Hwf (SRange s i v) drop).
+    intros v Hv. apply (IHp Hwf (SRange s i v) drop). cbn [lookup].
+    eapply fdev_flat_map in HD; eauto.
   - (* Map *)
-    cbn [run obs plays]. rewrite verd_app. eapply bind_ref; [apply validate_ref|]. cbn [wf] in Hwf.
-    apply (IHp (proj2 Hwf) (SMapped s m) drop).
+    cbn [run obs plays] in *. rewrite verd_app. eapply bind_ref; [apply validate_ref|]. cbn [wf] in Hwf.
+    apply fdev_app in HD as [_ HD].
+    apply (IHp (proj2 Hwf) (SMapped s m) drop). exact HD.
 Qed.
+End Ref.
+
+(* with the guard: the original refinement; without: where the ideal verdict is "missing" the code may do anything *)
+Lemma run_ref : forall p, wf p -> forall s drop, guard_C03_function_zero p (lookup s) drop = true ->
+  refines (run p s drop) (verdict p (lookup s) drop).
+Proof. intros p Hwf s drop Hg. apply (run_ref_D False p Hwf s drop). apply fdev_False; auto. Qed.
+
+Lemma run_ref_u : forall p, wf p -> forall s drop, refines_u (run p s drop) (verdict p (lookup s) drop).
+Proof. intros p Hwf s drop. apply (run_ref_D True p Hwf s drop). apply fdev_True. Qed.
+
+Lemma refines_ok_inv : forall A (x : A) b, refines (Ok x) b -> b = Ok x.
+Proof. exact refines_ok_inv0. Qed.
